@@ -44,6 +44,160 @@ def reference(ja, jb, jc, pa, pb, pc, p_break, ca):
     return out
 
 
+CORE = "tf_pwa/amp/core.py"
+
+
+def _reference_list(ja, jb, jc, pa, pb, pc, p_break):
+    return reference(ja, jb, jc, pa, pb, pc, p_break, None)
+
+
+def check_l_restriction(repo, chk):
+    """HelicityDecay.get_ls_list: the l_list restriction is applied, and applied on every call"""
+    from ..sym import SelfObj, SuperObj
+    chk.rule("S-llist", "HelicityDecay.get_ls_list, interpreted with the unrestricted list replaced by a token list, for l_list in {None, [0], [1, 2], [5]}: the result is the couplings whose l is in l_list, in order, and a second call on the same object returns the same list (the per-decay cache holds the restricted list)")
+    hd = repo.cls(CORE + "::HelicityDecay")
+    fn = hd.methods.get("get_ls_list")
+    if fn is None:
+        raise AnalysisError("anchor vanished: HelicityDecay.get_ls_list")
+    base = ((sp.Integer(0), sp.Integer(0)), (sp.Integer(1), sp.Integer(1)), (sp.Integer(2), sp.Integer(1)), (sp.Integer(2), sp.Integer(2)))
+    parents = [c for c in hd.mro[1:] if "get_ls_list" in c.methods]
+    if not parents:
+        raise AnalysisError("HelicityDecay.get_ls_list has no base implementation any more")
+    hooks = {parents[0].methods["get_ls_list"].key: lambda tr_, a_, k_, n_: base, "allow_attr_store": True}
+    bad = None
+    for l_list in (None, [sp.Integer(0)], [sp.Integer(1), sp.Integer(2)], [sp.Integer(5)]):
+        so = SelfObj(hd, {"ls_list": None, "l_list": l_list, "ls_selector": None, "total_ls": None})
+        tr = Translator(repo, hooks=hooks, max_depth=2)
+        try:
+            first = tr.call_fn(fn, [], {}, self_obj=so)
+            second = tr.call_fn(fn, [], {}, self_obj=so)
+        except Unmodelled as e:
+            raise AnalysisError("HelicityDecay.get_ls_list cannot be interpreted: %s" % e)
+        want = [x for x in base if l_list is None or x[0] in l_list]
+        f1 = [tuple(x) for x in first] if isinstance(first, (list, tuple)) else first
+        f2 = [tuple(x) for x in second] if isinstance(second, (list, tuple)) else second
+        if f1 != want and bad is None:
+            bad = ("first", "with l_list=%s the first call returns %s, expected %s" % (l_list, f1, want))
+        elif f2 != want and bad is None:
+            bad = ("second", "with l_list=%s the first call returns %s but a later call returns %s: every later user (l list, CG matrix, parameters) sees the unrestricted couplings" % (l_list, f1, f2))
+    chk.oblige("S-llist", "get_ls_list on 4 l_list settings, two calls each", bad is None)
+    if bad:
+        chk.violation("S-llist", fn.key, bad[0] + "-call", bad[1], file=CORE, line=fn.lineno)
+
+
+def check_qr_selector(repo, chk, tier):
+    """ls_selector_qr keeps a maximal independent set of couplings: as many as independent helicity amplitudes"""
+    from ..sym import SelfObj, PyFunc
+    from .c12 import cg_sq
+    chk.rule("S-qr", "ls_selector_qr, interpreted with CG(...) read as the exact coefficient (sympy Matrix / QRdecomposition on exact entries), for spin-parity assignments with spins <= 1 (quick) / 2 (thorough), parity conserving and p_break: the selected couplings are a repetition-free sublist of the offered ones, as many as there are independent helicity amplitudes (parity partners identified only when parity is conserved), and the helicity-coupling matrix restricted to them has full column rank")
+    fn = repo.fn_opt(CORE + "::ls_selector_qr")
+    if fn is None:
+        raise AnalysisError("anchor vanished: ls_selector_qr")
+    half = sp.Rational(1, 2)
+
+    def cgv(j1, m1, j2, m2, J, M):
+        sign, sq = cg_sq(*[_frac(x) for x in (j1, m1, j2, m2, J, M)])
+        return sp.Integer(sign) * sp.sqrt(sp.Rational(sq.numerator, sq.denominator))
+
+    class _CG:
+        def __init__(self, *a):
+            self.a = a
+
+    def attribute(tr, obj, attr, n):
+        if isinstance(obj, _CG) and attr == "doit":
+            return PyFunc(lambda: cgv(*obj.a))
+        raise Unmodelled("attribute %s of %r" % (attr, obj))
+
+    def first(tr, d, args, kwargs, n):
+        last = d.split(".")[-1]
+        if last == "CG" and len(args) == 6:
+            return cgv(*args)  # products of coefficients are formed before .doit(): hand out the value at once
+        if last == "Matrix":
+            return _Mat(sp.Matrix([[sp.sympify(x) for x in row] for row in args[0]]))
+        return NotImplemented
+
+    class _Mat:
+        def __init__(self, m):
+            self.m = m
+
+    def attribute2(tr, obj, attr, n):
+        if isinstance(obj, _Mat):
+            if attr == "QRdecomposition":
+                def qr():
+                    # sympy's QR needs full column rank of the leading block; use the rank-revealing fallback on failure
+                    q, r = obj.m.QRdecomposition()
+                    return _Mat(q), _Mat(r)
+                return PyFunc(qr)
+            if attr in ("rows", "cols"):
+                return sp.Integer(getattr(obj.m, attr))
+        if is_number_like(obj) and attr == "doit":
+            return PyFunc(lambda: obj)
+        return attribute(tr, obj, attr, n)
+
+    def is_number_like(x):
+        return isinstance(x, sp.Basic)
+
+    def subscript(tr, obj, idx, n):
+        if isinstance(obj, _Mat):
+            i, j = idx
+            return sp.simplify(obj.m[int(i), int(j)])
+        raise Unmodelled("subscript of %r" % (obj,))
+
+    def sym_method(tr, obj, name, args, kwargs):
+        if name == "doit":
+            return obj
+        return NotImplemented
+
+    spins = [k * half for k in range(0, 3 if tier != "thorough" else 5)]
+    n_cases, bad = 0, None
+    for ja, jb, jc in itertools.product(spins, repeat=3):
+        if not (ja + jb + jc).is_Integer and not ((jb + jc - ja).is_Integer):
+            continue
+        if not (jb + jc - ja).is_Integer:
+            continue
+        for pa, pb, pc in ((1, 1, 1), (1, -1, 1), (-1, 1, -1)):
+            for p_break in (False, True):
+                offered = _reference_list(ja, jb, jc, pa, pb, pc, p_break)
+                if not offered:
+                    continue
+                offered_t = tuple((sp.Integer(l), sp.nsimplify(s_)) for l, s_ in offered)
+                mk = lambda J, P: SelfObj(None, {"J": J, "P": P, "spins": [J - k for k in range(int(2 * J), -1, -1)]})
+                dec = SelfObj(None, {"core": mk(ja, pa), "outs": [mk(jb, pb), mk(jc, pc)], "p_break": p_break})
+                tr = Translator(repo, hooks={"numeric_call_first": first, "attribute": attribute2, "subscript": subscript, "sym_method": sym_method}, max_depth=2)
+                try:
+                    got = tr.call_fn(fn, [dec, offered_t])
+                except Unmodelled as e:
+                    raise AnalysisError("ls_selector_qr cannot be interpreted at (%s,%s,%s; %s,%s,%s; p_break=%s): %s" % (ja, jb, jc, pa, pb, pc, p_break, e))
+                n_cases += 1
+                # reference: helicity-coupling matrix over all allowed helicity pairs
+                hel = [(l1, l2) for l1 in [jb - k for k in range(int(2 * jb), -1, -1)] for l2 in [jc - k for k in range(int(2 * jc), -1, -1)] if abs(l1 - l2) <= ja]
+                M = sp.Matrix([[cgv(l, 0, s_, l1 - l2, ja, l1 - l2) * cgv(jb, l1, jc, -l2, s_, l1 - l2) for l, s_ in offered_t] for l1, l2 in hel])
+                n_indep = M.rank()
+                g = [tuple(x) for x in got] if isinstance(got, (list, tuple)) else None
+                why = None
+                if g is None or any(x not in offered_t for x in g) or len(set(g)) != len(g):
+                    why = "returns %s, not a repetition-free sublist of the offered couplings %s" % (got, offered_t)
+                elif len(g) != n_indep:
+                    why = "offers %d couplings %s for %d independent helicity amplitudes" % (len(g), g, n_indep)
+                else:
+                    cols = [offered_t.index(x) for x in g]
+                    if M[:, cols].rank() != len(cols):
+                        why = "the selected couplings %s are linearly dependent" % (g,)
+                if why and bad is None:
+                    bad = "J^P = %s^%s -> %s^%s %s^%s, p_break=%s: %s" % (ja, pa, jb, pb, jc, pc, p_break, why)
+    if n_cases < 30:
+        raise AnalysisError("S-qr: only %d cases" % n_cases)
+    chk.oblige("S-qr", "ls_selector_qr on %d spin-parity assignments: selected couplings independent and as many as independent helicity amplitudes" % n_cases, bad is None)
+    if bad:
+        chk.violation("S-qr", fn.key, "rank", bad, file=CORE, line=fn.lineno)
+
+
+def _frac(x):
+    from fractions import Fraction
+    x = sp.nsimplify(x)
+    return Fraction(int(x.p), int(x.q)) if hasattr(x, "p") else Fraction(int(x))
+
+
 def run(repo, chk, tier):
     chk.rule("S-enum", "GetA2BC_LS_list, interpreted as a whole on a grid of spins x parities (incl. unknown) x p_break x C-parity, returns the textbook list of (l, s): triangle rules in unit steps with both ends, l integer, parity and C-parity filters, each coupling once and in order")
     fn = repo.fn(PAR + "::GetA2BC_LS_list")
@@ -79,4 +233,6 @@ def run(repo, chk, tier):
         chk.violation("S-enum", fn.key, "enumeration", "%d of %d grid points deviate; first: %s" % (len(bad), n, bad[0]), file=PAR, line=fn.lineno)
     if n < 1000:
         raise AnalysisError("S-enum: only %d grid points" % n)
-    chk.info("not decided: rank of the LS->helicity map, l_list/ls_list restrictions, removal of chains without allowed couplings")
+    check_l_restriction(repo, chk)
+    check_qr_selector(repo, chk, tier)
+    chk.info("not decided: rank of the unselected LS->helicity map for spins above 2, ls_selector=weight, float-valued spins in the QR selector (run-time arithmetic), removal of chains without allowed couplings")
